@@ -120,7 +120,7 @@ func numericStringExterns() {
 	regExtern("strings.Replace", "Replace: uninterpreted function of its arguments", func(ex *Exec, fr *Frame, st *State, pc *Term, fn *ssa.Function, args []Value, pos token.Pos) (Value, *Term) {
 		return VStr{App("gostr.replace", StrSort, args[0].(VStr).T, args[1].(VStr).T, args[2].(VStr).T, args[3].(VBV).T)}, pc
 	})
-	regExtern("math.Pow10", "Pow10(e): uninterpreted function of e", func(ex *Exec, fr *Frame, st *State, pc *Term, fn *ssa.Function, args []Value, pos token.Pos) (Value, *Term) {
+	regExtern("math.Pow10", "math.Pow10(e): uninterpreted function of e, except that for 0 <= e <= 9 its conversion to an integer type of at least 32 bits is exactly 10^e (10^e is exactly representable); for 0 <= e <= 19 its conversion to int64 is non-zero", func(ex *Exec, fr *Frame, st *State, pc *Term, fn *ssa.Function, args []Value, pos token.Pos) (Value, *Term) {
 		e := args[0].(VBV).T
 		p := App("pow10", BV64, e)
 		// 10^e for 0 <= e <= 19 converts to a non-zero int64 (on amd64 the overflowing 10^19 becomes MinInt64)
